@@ -46,7 +46,7 @@ import (
 
 const vMarker = "m"
 
-// a mutation program: kind 1 append(v) | 2 set(k, v) | 3 remove(v)
+// a mutation program: kind 1 append(v) | 2 set(k, v) | 3 remove(v) | 5 rotate (first entry to the end)
 type vWr struct {
 	kind int
 	k    int
@@ -126,6 +126,17 @@ var vLogs = vSigOps[plog.Logs, consumer.Logs]{
 				lr.Body().SetInt(w.v)
 				lr.Attributes().PutStr("written", "yes")
 			}
+		case 5: // any other mutation: make room, then rotate the entries (first one to the end)
+			rl.EnsureCapacity(rl.Len() + 1)
+			if rl.Len() > 0 {
+				rl.At(0).MoveTo(rl.AppendEmpty())
+				first := true
+				rl.RemoveIf(func(plog.ResourceLogs) bool {
+					f := first
+					first = false
+					return f
+				})
+			}
 		default:
 			rl.RemoveIf(func(e plog.ResourceLogs) bool {
 				return vMark(e.Resource().Attributes().Get(vMarker)) == w.v
@@ -190,6 +201,17 @@ var vMetrics = vSigOps[pmetric.Metrics, consumer.Metrics]{
 				m := e.ScopeMetrics().At(0).Metrics().At(0)
 				m.SetName(fmt.Sprintf("written-%d", w.v))
 				m.Metadata().PutStr("written", "yes")
+			}
+		case 5: // any other mutation: make room, then rotate the entries (first one to the end)
+			rl.EnsureCapacity(rl.Len() + 1)
+			if rl.Len() > 0 {
+				rl.At(0).MoveTo(rl.AppendEmpty())
+				first := true
+				rl.RemoveIf(func(pmetric.ResourceMetrics) bool {
+					f := first
+					first = false
+					return f
+				})
 			}
 		default:
 			rl.RemoveIf(func(e pmetric.ResourceMetrics) bool {
@@ -259,6 +281,17 @@ var vTraces = vSigOps[ptrace.Traces, consumer.Traces]{
 					sp.Events().At(0).SetName("written")
 				}
 			}
+		case 5: // any other mutation: make room, then rotate the entries (first one to the end)
+			rl.EnsureCapacity(rl.Len() + 1)
+			if rl.Len() > 0 {
+				rl.At(0).MoveTo(rl.AppendEmpty())
+				first := true
+				rl.RemoveIf(func(ptrace.ResourceSpans) bool {
+					f := first
+					first = false
+					return f
+				})
+			}
 		default:
 			rl.RemoveIf(func(e ptrace.ResourceSpans) bool {
 				return vMark(e.Resource().Attributes().Get(vMarker)) == w.v
@@ -325,6 +358,17 @@ var vProfiles = vSigOps[pprofile.Profiles, xconsumer.Profiles]{
 				p.SetDroppedAttributesCount(uint32(w.v))
 				p.AttributeIndices().Append(int32(w.v))
 			}
+		case 5: // any other mutation: make room, then rotate the entries (first one to the end)
+			rl.EnsureCapacity(rl.Len() + 1)
+			if rl.Len() > 0 {
+				rl.At(0).MoveTo(rl.AppendEmpty())
+				first := true
+				rl.RemoveIf(func(pprofile.ResourceProfiles) bool {
+					f := first
+					first = false
+					return f
+				})
+			}
 		default:
 			rl.RemoveIf(func(e pprofile.ResourceProfiles) bool {
 				return vMark(e.Resource().Attributes().Get(vMarker)) == w.v
@@ -346,7 +390,8 @@ var vProfiles = vSigOps[pprofile.Profiles, xconsumer.Profiles]{
 }
 
 // ---- the caller's context ---------------------------------------------------------------------------
-// kind 0: a live context that never ends; 1: context.WithCancel, cancelled at the chosen point;
+// kind 0: a live context that never ends; 1: context.WithCancel, cancelled at the chosen point; 3: context.WithDeadline
+// (1 h ahead) cancelled at the chosen point; 4: context.WithDeadline whose deadline has ALREADY passed (ends before ConsumeX);
 // 2: a context whose deadline "passes" at the chosen point (own implementation of context.Context, so the
 // moment is chosen by the script, not by a clock: Err() == context.DeadlineExceeded from then on).
 type vCtxKey struct{}
@@ -358,7 +403,14 @@ type vDeadlineCtx struct {
 	tag  int
 }
 
-func (c *vDeadlineCtx) Deadline() (time.Time, bool) { return time.Time{}, false }
+func (c *vDeadlineCtx) Deadline() (time.Time, bool) {
+	c.mu.Lock()
+	defer c.mu.Unlock()
+	if c.err != nil {
+		return time.Now().Add(-time.Minute), true // the deadline has passed
+	}
+	return time.Now().Add(time.Hour), true
+}
 func (c *vDeadlineCtx) Done() <-chan struct{}       { return c.done }
 func (c *vDeadlineCtx) Err() error {
 	c.mu.Lock()
@@ -387,6 +439,10 @@ func vMakeCtx(kind, tag int) (context.Context, func()) {
 	case 2:
 		c := &vDeadlineCtx{done: make(chan struct{}), tag: tag}
 		return c, c.expire
+	case 3: // a REAL deadline context; it can only "end before ConsumeX" (deadline already passed) or be cancelled
+		return context.WithDeadline(context.WithValue(context.Background(), vCtxKey{}, tag), time.Now().Add(time.Hour))
+	case 4:
+		return context.WithDeadline(context.WithValue(context.Background(), vCtxKey{}, tag), time.Now().Add(-time.Hour))
 	default:
 		return context.WithValue(context.Background(), vCtxKey{}, tag), func() {}
 	}
@@ -1005,7 +1061,7 @@ func vGenCase(rng *vRand, caps []bool, roIn bool) vFanCase {
 	// the caller's context: never ends | already ended before ConsumeX | ends while the k-th call is in progress
 	// (that consumer fails with the context's error; later ones may too) | ends after the return
 	cs.ctxEndAt = -1
-	cs.ctxKind = rng.Intn(3)
+	cs.ctxKind = rng.Intn(4)
 	if cs.ctxKind > 0 {
 		switch rng.Pick(2, 2, 5, 1) {
 		case 1:
@@ -1017,8 +1073,11 @@ func vGenCase(rng *vRand, caps []bool, roIn bool) vFanCase {
 		case 3:
 			cs.ctxEndAt = n + 1
 		}
+		if cs.ctxKind == 3 && cs.ctxEndAt == 0 && rng.Intn(2) == 0 {
+			cs.ctxKind = 4 // the deadline had already passed when ConsumeX was called
+		}
 		ctxLeaf := uint64(vErrCanceled)
-		if cs.ctxKind == 2 {
+		if cs.ctxKind == 2 || cs.ctxKind == 4 {
 			ctxLeaf = vErrDeadline
 		}
 		for k, i := range order {
@@ -1042,11 +1101,13 @@ func vGenCase(rng *vRand, caps []bool, roIn bool) vFanCase {
 			who = rng.Intn(n)
 		}
 		var w vWr
-		switch rng.Pick(4, 4, 2) {
+		switch rng.Pick(4, 4, 2, 2) {
 		case 0:
 			w = vWr{kind: 1, v: int64(4 + rng.Intn(5))}
 		case 1:
 			w = vWr{kind: 2, k: rng.Intn(cur + 2), v: int64(4 + rng.Intn(5))}
+		case 3:
+			w = vWr{kind: 5}
 		default:
 			w = vWr{kind: 3, v: int64(rng.Intn(6))}
 			if len(cs.c0) > 0 && rng.Intn(2) == 0 {
